@@ -60,6 +60,19 @@ def plan(ctx, meta, progs, targets, modes, items=2, per_prog=None, assigns=False
         ks = list(range(kmin, len(tr)))
         cases.append((prog, t, None, None))
         for mode in modes:
+            if mode == 'defer':
+                # deferred delivery (process / remote kinds): arrival point k x delay d, sampled; half of the
+                # samples are raised after the target has returned (where the join fence matters)
+                if inject.KINDS[prog][2] == 'thread':
+                    continue
+                combos = [(k, d) for k in ks for d in range(0, len(tr) - k + 1)]
+                after = tr.index(0) if 0 in tr else kmin
+                late = [c for c in combos if c[0] + 1 + c[1] > after]
+                n = (per_prog or {}).get('defer', 60)
+                pick = ctx.rng.sample(late, min(n // 2, len(late))) + ctx.rng.sample(combos, min(n - n // 2, len(combos)))
+                for k, d in sorted(set(pick)):
+                    cases.append((prog, t, k, f'defer:{d}'))
+                continue
             if mode == 'kill' and inject.KINDS[prog][2] == 'thread':
                 continue
             if mode == 'raise' and inject.KINDS[prog][2] != 'thread':
@@ -90,14 +103,20 @@ def run_cases(ctx, cases, items=2, stateful=False):
 
 
 def landing_line(rec):
-    """source line of the landing point (0 = inside the target)"""
+    """source line of the landing point (0 = inside the target); for a deferred delivery: the line event at
+    which the delayed exception is due (None if the run ends before)"""
     if rec['k'] is None:
         return None
+    idx = rec['k']
+    if (rec['mode'] or '').startswith('defer'):
+        idx = rec['k'] + 1 + int(rec['mode'].split(':')[1])
     rt = rec['real'].get('trace') or []
-    if len(rt) > rec['k']:
-        return rt[rec['k']]
+    if len(rt) > idx:
+        return rt[idx]
+    if (rec['mode'] or '').startswith('defer'):
+        return rt[-1] if rt and 'deferred-raise-never-arrived' not in rec['real'].get('notes', []) and len(rt) > rec['k'] + 1 else None
     mt = (rec['model'] or {}).get('trace') or []
-    return mt[rec['k']] if len(mt) > rec['k'] else None
+    return mt[idx] if len(mt) > idx else None
 
 
 def describe(rec):
